@@ -196,6 +196,7 @@ def c07_5(ctx, ss):
             ctx.violation("C07.5", k, where(ff, lp), f"{q}: an existing inner key is kept (setdefault / membership guard): the first declaration wins")
         else:
             ctx.holds("C07.5", k, where(ff, lp), f"{q}: update / item store in document order (later wins)", 3)
+        _one_store_per_statement(ctx, ff, flow, lp, q)
     # (c) PHOTOS flag: last one, `no` when empty
     ff, flow = fn(ss, DEC, "get_global_photos_flag")
     rets = returns(ff)
@@ -276,6 +277,83 @@ def c07_5(ctx, ss):
             ctx.holds("C07.5", k, where(ff, lp), f"`{lit}`: stores on first sight, raises when the key is already present", len(raises) + len(stores))
         else:
             ctx.violation("C07.5", k, where(ff, lp), f"`{lit}`: {why}")
+        _one_store_per_statement(ctx, ff, flow, lp, f"get_lineshape_settings[{lit}]")
+        # the repeated-setting test looks at the key that is stored: inner membership tests `X in d[p]` use the inner store key
+        inner_keys = set()
+        for s_ in stores:
+            t_ = s_.targets[0]
+            if isinstance(t_.value, ast.Subscript):
+                inner_keys.add(flow.text(t_.slice).strip("f'\"{}"))
+            elif isinstance(s_.value, ast.Dict) and s_.value.keys:
+                inner_keys |= {flow.text(kk).strip("f'\"{}") for kk in s_.value.keys}
+        for r in raises:
+            for kind, e, pol in guards.path_conditions(lp, r):
+                if kind == "if" and isinstance(e, ast.Compare) and isinstance(e.comparators[0], ast.Subscript):
+                    lt = flow.text(e.left).strip("f'\"{}")
+                    if inner_keys and lt not in inner_keys:
+                        ctx.violation("C07.5", k + " :: repeat-key", where(ff, r), f"`{lit}`: the repeated-setting test looks up `{lt}` but the setting is stored under {sorted(inner_keys)}")
+
+
+def _store_nodes(ff, flow, lp):
+    """CFG nodes of the statements inside the loop that put an entry into a result dictionary
+    (`d[k] = …`, `d[k][k2] = …`, `d[k].update(…)`), with the expanded text of their outer key."""
+    out = []
+    for s in pf.iter_stmts(lp.body):
+        key = None
+        if isinstance(s, ast.Assign) and isinstance(s.targets[0], ast.Subscript):
+            t = s.targets[0]
+            while isinstance(t.value, ast.Subscript):
+                t = t.value
+            key = t.slice
+        elif isinstance(s, ast.Expr) and isinstance(s.value, ast.Call) and isinstance(s.value.func, ast.Attribute) \
+                and s.value.func.attr == "update" and isinstance(s.value.func.value, ast.Subscript):
+            key = s.value.func.value.slice
+        if key is not None:
+            out.append((flow.cfg.node_of(s), s, flow.text(key)))
+    return out
+
+
+def _one_store_per_statement(ctx, ff, flow, lp, q, rule="C07.5"):
+    """Every statement of the file puts exactly one entry into the result on every normal path, and membership
+    tests that choose between 'new outer key' and 'known outer key' test the key that is then stored."""
+    stores = _store_nodes(ff, flow, lp)
+    k = ckey(ff, None, f"one-store:{txt(flow.expand(lp.iter))[-30:]}")
+    if not stores:
+        ctx.violation(rule, k, where(ff, lp), f"{q}: no entry is stored per statement")
+        return
+    nodes = {n for n, _, _ in stores}
+    lo, hi, _ = flow.cfg.count_per_iteration(flow.cfg.node_of(lp), lambda nd: nd.id in nodes)
+    # try/except KeyError idiom: the handler's store replaces the failed one (both are on one path) -> allow max 2 when a handler exists
+    has_handler = any(isinstance(x, ast.Try) for x in ast.walk(lp))
+    raises = any(isinstance(x, ast.Raise) for x in ast.walk(lp))
+    ok_count = lo >= 1 and (hi == 1 or (has_handler and hi == 2))
+    if not ok_count and not (raises and lo == 0 and hi == 1):
+        ctx.violation(rule, k, where(ff, lp), f"{q}: a statement stores between {lo} and {hi} entries on some path — a declaration can be silently skipped")
+    elif raises and lo == 0:
+        # lineshape loops: the only path without a store must be the raising one (checked by the repeat rule)
+        ctx.holds(rule, k, where(ff, lp), f"{q}: one entry per statement unless the repeated-setting error is raised", len(stores))
+    else:
+        ctx.holds(rule, k, where(ff, lp), f"{q}: exactly one entry stored per statement on every path", len(stores))
+    keys = {kt for _, _, kt in stores}
+    for s in pf.iter_stmts(lp.body):
+        if isinstance(s, ast.If):
+            for cmp_ in [x for x in ast.walk(s.test) if isinstance(x, ast.Compare) and any(isinstance(o, (ast.In, ast.NotIn)) for o in x.ops)]:
+                if isinstance(cmp_.comparators[0], ast.Name):
+                    lt = flow.text(cmp_.left)
+                    # the branch taken when the outer key is KNOWN must extend the existing entry, the other must create it
+                    if s.test is cmp_ and s.orelse:
+                        known, fresh = (s.body, s.orelse) if isinstance(cmp_.ops[0], ast.In) else (s.orelse, s.body)
+
+                        def creates(block):
+                            return any(isinstance(x, ast.Assign) and isinstance(x.targets[0], ast.Subscript) and txt(x.targets[0].value) == txt(cmp_.comparators[0])
+                                       for x in block)
+                        if creates(known) or not creates(fresh):
+                            ctx.violation(rule, ckey(ff, None, f"membership-branches:{lt[-40:]}"), where(ff, s),
+                                          f"{q}: the branch for an already known outer key re-creates the entry (earlier declarations of that group are lost) "
+                                          "or the branch for a new key does not create it (KeyError)")
+                    if lt not in keys:
+                        ctx.violation(rule, ckey(ff, None, f"membership-key:{lt[-40:]}"), where(ff, s),
+                                      f"{q}: the membership test looks up `{lt[-60:]}` but the entry is stored under `{sorted(keys)[0][-60:]}`")
 
 
 def _chain(fnode: ast.FunctionDef, param: str) -> list[str]:
@@ -375,7 +453,9 @@ def c07_7(ctx, ss):
             pass
         ta = txt(arg)
         p0 = ff.params[0]
-        ok_alias = f".get({p0}[0].value, {p0}[0].value)" in ta and "get_aliases(parsed_file)" in ta
+        A = "get_aliases(parsed_file)"
+        nm = f"{p0}[0].value"
+        ok_alias = ta in (f"{A}.get({nm}, {nm})", f"{A}.get({nm}, {nm}) if {A} else {nm}")
     if ok_w and ok_alias:
         ctx.holds("C07.7", k, where(ff, r), "default width = Particle.from_evtgen_name(aliases.get(name, name)).width / GeV", 4)
     elif ok_w:
